@@ -2,6 +2,8 @@ package exec
 
 import (
 	"go/types"
+	"reflect"
+	"strings"
 
 	"golang.org/x/tools/go/ssa"
 
@@ -11,15 +13,25 @@ import (
 // ugorji/go codec as a faithful stream of values: an Encoder appends deep
 // copies of the encoded values to the stream of its writer; a Decoder over the
 // same object reads them back in order and answers io.EOF at the end. What the
-// msgpack bytes look like is outside the claim.
+// msgpack bytes look like is outside the claim. When the writer is a
+// *bytes.Buffer each encoded value is also written to it as a 9-byte handle, so
+// that the bytes can travel (be published, copied, stored) and a decoder over
+// a buffer or byte slice holding such handles reads the values back; bytes that
+// are not handles do not decode. Fields tagged `omitempty` are left out of the
+// encoding when they hold their zero value, hence are NOT assigned by Decode:
+// the target keeps what it held.
 
 const ugorji = "github.com/ugorji/go/codec"
 
-type codecStream struct{ vals []Iface }
+type codecStream struct {
+	vals    []Iface
+	garbage bool // the bytes were not produced by the Encoder model
+}
 
 type codecEnd struct {
 	stream *codecStream
 	pos    int
+	writer Value
 }
 
 func (m *Machine) codecStreamOf(rw Value) *codecStream {
@@ -40,13 +52,60 @@ func (m *Machine) codecStreamOf(rw Value) *codecStream {
 	return st
 }
 
+const codecHandleTag = 0xA7
+
+func isBytesBuffer(v Value) bool {
+	itf, ok := v.(Iface)
+	return ok && itf.T != nil && itf.T.String() == "*bytes.Buffer"
+}
+
+// codecStreamFromBytes resolves a byte string made of handles; ok=false when
+// the bytes are something else.
+func (m *Machine) codecStreamFromBytes(bs []Value) (*codecStream, bool) {
+	st := &codecStream{}
+	if len(bs)%9 != 0 {
+		return st, false
+	}
+	for i := 0; i < len(bs); i += 9 {
+		var id uint64
+		for j := 0; j < 9; j++ {
+			t, ok := bs[i+j].(*sym.Term)
+			if !ok || !t.Const {
+				return st, false
+			}
+			if j == 0 {
+				if t.U != codecHandleTag {
+					return st, false
+				}
+				continue
+			}
+			id = id<<8 | (t.U & 0xff)
+		}
+		if id < 1 || id > uint64(len(m.codecVals)) {
+			return st, false
+		}
+		st.vals = append(st.vals, m.codecVals[id-1])
+	}
+	return st, true
+}
+
 func init() {
 	mk := func(typeName string) stubFn {
 		return func(m *Machine, c *frame, fn *ssa.Function, a []Value) Value {
-			st := m.codecStreamOf(a[0])
+			var st *codecStream
+			if itf, _ := a[0].(Iface); typeName == "Decoder" && isBytesBuffer(a[0]) && m.natives[itf.V.(*Value)] == nil {
+				bs, _ := m.invokeMethod(c, a[0], "Bytes").([]Value)
+				s2, ok := m.codecStreamFromBytes(bs)
+				if !ok {
+					s2 = &codecStream{garbage: true}
+				}
+				st = s2
+			} else {
+				st = m.codecStreamOf(a[0])
+			}
 			p := new(Value)
 			*p = zero(m.eng.nativeType(ugorji + "." + typeName))
-			m.natives[p] = m.newNative("codecend", &codecEnd{stream: st})
+			m.natives[p] = m.newNative("codecend", &codecEnd{stream: st, writer: a[0]})
 			return p
 		}
 	}
@@ -61,11 +120,46 @@ func init() {
 				v = Iface{T: pt.Elem(), V: load(p)}
 			}
 		}
-		e.stream.vals = append(e.stream.vals, Iface{T: v.T, V: copyValDeep(v.V)})
+		enc := Iface{T: v.T, V: copyValDeep(v.V)}
+		e.stream.vals = append(e.stream.vals, enc)
+		if e.writer != nil && isBytesBuffer(e.writer) {
+			m.codecVals = append(m.codecVals, enc)
+			id := uint64(len(m.codecVals))
+			out := make([]Value, 9)
+			out[0] = sym.BVConst(8, codecHandleTag)
+			for i := 0; i < 8; i++ {
+				out[1+i] = sym.BVConst(8, (id>>(8*uint(7-i)))&0xff)
+			}
+			m.invokeMethod(c, e.writer, "Write", out)
+		}
 		return Iface{}
+	}
+	natives[ugorji+".NewDecoderBytes"] = func(m *Machine, c *frame, fn *ssa.Function, a []Value) Value {
+		bs, _ := a[0].([]Value)
+		st, ok := m.codecStreamFromBytes(bs)
+		if !ok {
+			st = &codecStream{garbage: true}
+		}
+		p := new(Value)
+		*p = zero(m.eng.nativeType(ugorji + ".Decoder"))
+		m.natives[p] = m.newNative("codecend", &codecEnd{stream: st})
+		return p
+	}
+	natives["(*"+ugorji+".Decoder).ResetBytes"] = func(m *Machine, c *frame, fn *ssa.Function, a []Value) Value {
+		d := m.natives[a[0].(*Value)].Data.(*codecEnd)
+		bs, _ := a[1].([]Value)
+		st, ok := m.codecStreamFromBytes(bs)
+		if !ok {
+			st = &codecStream{garbage: true}
+		}
+		d.stream, d.pos = st, 0
+		return nil
 	}
 	natives["(*"+ugorji+".Decoder).Decode"] = func(m *Machine, c *frame, fn *ssa.Function, a []Value) Value {
 		d := m.natives[a[0].(*Value)].Data.(*codecEnd)
+		if d.stream.garbage {
+			return m.newErrorString(sym.Str("codec: bytes are not an encoded value"))
+		}
 		if d.pos >= len(d.stream.vals) {
 			return m.pkgVar("io", "EOF")
 		}
@@ -97,6 +191,10 @@ func (m *Machine) codecDecodeInto(T types.Type, cur, nv Value) Value {
 		}
 		out := make(Struct, len(ns))
 		for i := range ns {
+			if codecOmitEmpty(u.Tag(i)) {
+				out[i] = m.codecKeepIfZero(cs[i], ns[i], func() Value { return m.codecDecodeInto(u.Field(i).Type(), cs[i], ns[i]) })
+				continue
+			}
 			out[i] = m.codecDecodeInto(u.Field(i).Type(), cs[i], ns[i])
 		}
 		return out
@@ -112,4 +210,118 @@ func (m *Machine) codecDecodeInto(T types.Type, cur, nv Value) Value {
 		}
 	}
 	return nv
+}
+
+func codecOmitEmpty(tag string) bool {
+	v, ok := reflect.StructTag(tag).Lookup("codec")
+	if !ok {
+		return false
+	}
+	parts := strings.Split(v, ",")
+	for _, p := range parts[1:] {
+		if p == "omitempty" {
+			return true
+		}
+	}
+	return false
+}
+
+// codecKeepIfZero: an omitempty field holding its zero value is absent from the
+// encoding, so the decoder leaves the target's field as it is.
+func (m *Machine) codecKeepIfZero(cur, nv Value, fill func() Value) Value {
+	switch x := nv.(type) {
+	case *sym.Term:
+		var z *sym.Term
+		switch x.Sort.K {
+		case sym.KBool:
+			z = sym.Bool(false)
+		case sym.KBV:
+			z = sym.BVConst(x.Sort.W, 0)
+		case sym.KStr:
+			z = sym.Str("")
+		default:
+			return fill()
+		}
+		isZero := sym.Eq(x, z)
+		if isZero.Const {
+			if isZero.IsTrue() {
+				return cur
+			}
+			return fill()
+		}
+		if ct, ok := cur.(*sym.Term); ok {
+			return sym.Ite(isZero, ct, x)
+		}
+		if m.branch(isZero) {
+			return cur
+		}
+		return fill()
+	case []Value:
+		if len(x) == 0 {
+			return cur
+		}
+	case *Map:
+		if x == nil || x.Len() == 0 {
+			return cur
+		}
+	case *Value:
+		if x == nil {
+			return cur
+		}
+	case Iface:
+		if x.T == nil {
+			return cur
+		}
+	case Struct:
+		if structAllZero(x) {
+			return cur
+		}
+	}
+	return fill()
+}
+
+func structAllZero(s Struct) bool {
+	for _, f := range s {
+		switch x := f.(type) {
+		case *sym.Term:
+			if !x.Const {
+				return false
+			}
+			switch x.Sort.K {
+			case sym.KBool, sym.KBV:
+				if x.U != 0 {
+					return false
+				}
+			case sym.KStr:
+				if x.S != "" {
+					return false
+				}
+			default:
+				return false
+			}
+		case []Value:
+			if len(x) != 0 {
+				return false
+			}
+		case *Map:
+			if x != nil && x.Len() != 0 {
+				return false
+			}
+		case *Value:
+			if x != nil {
+				return false
+			}
+		case Iface:
+			if x.T != nil {
+				return false
+			}
+		case Struct:
+			if !structAllZero(x) {
+				return false
+			}
+		default:
+			return false
+		}
+	}
+	return true
 }
